@@ -40,6 +40,20 @@ class CompareError(RuntimeError):
         return error
 
 
+def _values_differ(left, right):
+    """
+    Are two non-node field values different
+
+    Numbers of different types are different constants, even though they compare equal (1, 1.0 and True)
+    """
+
+    number_types = (bool, int, float, complex)
+    if isinstance(left, number_types) and isinstance(right, number_types) and type(left) is not type(right):
+        return True
+
+    return left != right
+
+
 def compare_ast(l_ast, r_ast):
     """
     Compare Python Abstract Syntax Trees
@@ -80,7 +94,7 @@ def compare_ast(l_ast, r_ast):
             for i, left, right in zip(counter(), l_list, r_list):
                 if isinstance(left, ast.AST) or isinstance(right, ast.AST):
                     compare_ast(left, right)
-                elif left != right:
+                elif _values_differ(left, right):
                     raise CompareError(
                         l_ast,
                         r_ast,
@@ -94,7 +108,7 @@ def compare_ast(l_ast, r_ast):
 
             if isinstance(left_field, ast.AST) or isinstance(right_field, ast.AST):
                 compare_ast(left_field, right_field)
-            elif left_field != right_field:
+            elif _values_differ(left_field, right_field):
                 raise CompareError(
                     l_ast,
                     r_ast,
